@@ -17,6 +17,7 @@ import (
 	"os"
 	"strings"
 	"sync"
+	"sync/atomic"
 	"time"
 
 	"github.com/enbility/go-avahi"
@@ -58,6 +59,8 @@ func (g *fakeGroup) Commit() error {
 type fakeBrowser struct {
 	avahi.ServiceBrowserInterface
 	session int
+	stop    chan struct{}
+	done    chan struct{}
 }
 
 type fakeAvahi struct {
@@ -73,6 +76,26 @@ type fakeAvahi struct {
 	setups      int
 	calls       int // daemon calls of any kind
 	addChan     chan avahi.Service
+	removeChan  chan avahi.Service
+	stream      bool // a browser emits results continuously until it is freed (stress phase)
+	inFlight    bool // ServiceBrowserFree delivers one result that was dispatched just before
+	emitted     int
+}
+
+// the daemon forgets the browser (new session, shutdown, daemon gone): its dispatcher ends
+func (s *fakeAvahi) dropBrowserLocked() {
+	if b := s.browser; b != nil {
+		select {
+		case <-b.stop:
+		default:
+			close(b.stop)
+		}
+	}
+	s.browser = nil
+}
+
+func fakeService(i int) avahi.Service {
+	return avahi.Service{Interface: 2, Protocol: 0, Name: fmt.Sprintf("peer%d", i%4), Type: "_ship._tcp", Domain: "local"}
 }
 
 func (s *fakeAvahi) Setup(cb avahi.EventCB) error {
@@ -86,7 +109,7 @@ func (s *fakeAvahi) Setup(cb avahi.EventCB) error {
 	s.session++
 	s.live = true
 	s.cb = cb
-	s.browser = nil
+	s.dropBrowserLocked()
 	s.published = ""
 	s.publishedBy = nil
 	return nil
@@ -96,7 +119,7 @@ func (s *fakeAvahi) Shutdown() {
 	s.mu.Lock()
 	s.calls++
 	s.live = false
-	s.browser = nil
+	s.dropBrowserLocked()
 	s.published = ""
 	s.publishedBy = nil
 	s.mu.Unlock()
@@ -116,16 +139,59 @@ func (s *fakeAvahi) ServiceBrowserNew(addChan, removeChan chan avahi.Service, if
 	if !s.up || !s.live {
 		return nil, errors.New("not connected")
 	}
-	s.browser = &fakeBrowser{session: s.session}
-	s.addChan = addChan
-	return s.browser, nil
+	b := &fakeBrowser{session: s.session, stop: make(chan struct{}), done: make(chan struct{})}
+	s.browser = b
+	s.addChan, s.removeChan = addChan, removeChan
+	go func() {
+		defer close(b.done)
+		defer func() { _ = recover() }() // the provider closes its channels on shutdown
+		if !s.stream {
+			<-b.stop
+			return
+		}
+		for i := 0; ; i++ {
+			ch := addChan
+			if i%3 == 2 {
+				ch = removeChan
+			}
+			select {
+			case ch <- fakeService(i):
+				s.mu.Lock()
+				s.emitted++
+				s.mu.Unlock()
+			case <-b.stop:
+				return
+			}
+		}
+	}()
+	return b, nil
 }
 func (s *fakeAvahi) ServiceBrowserFree(r avahi.ServiceBrowserInterface) {
 	s.mu.Lock()
-	if b, ok := r.(*fakeBrowser); ok && s.browser == b {
+	b, ok := r.(*fakeBrowser)
+	if ok && s.browser == b {
 		s.browser = nil
 	}
+	inFlight, ch := s.inFlight, s.addChan
 	s.mu.Unlock()
+	if ok {
+		if inFlight && ch != nil {
+			// a result that had been dispatched just before the browser got freed
+			func() {
+				defer func() { _ = recover() }()
+				select {
+				case ch <- fakeService(1):
+				case <-time.After(3 * time.Second):
+				}
+			}()
+		}
+		select {
+		case <-b.stop:
+		default:
+			close(b.stop)
+		}
+		<-b.done
+	}
 }
 func (s *fakeAvahi) EntryGroupNew() (avahi.EntryGroupInterface, error) {
 	s.mu.Lock()
@@ -159,7 +225,7 @@ func (s *fakeAvahi) goDown() {
 	s.up = false
 	wasLive := s.live
 	s.live = false
-	s.browser = nil
+	s.dropBrowserLocked()
 	s.published = ""
 	s.publishedBy = nil
 	cb := s.cb
@@ -186,10 +252,44 @@ type avahiScenario struct {
 
 func resolveNop(map[string]string, string, string, []net.IP, int, bool) {}
 
+// shutdown with browse results streaming in / one result in flight: Shutdown has to return, nothing may panic
+func avahiShutdownTrial(id int, inFlight bool) string {
+	srv := &fakeAvahi{up: true, stream: !inFlight, inFlight: inFlight}
+	p := mdns.VerifNewAvahiProvider(srv, []int32{avahi.InterfaceUnspec})
+	var got atomic.Int32
+	cb := func(map[string]string, string, string, []net.IP, int, bool) { got.Add(1) }
+	if !p.Start(true, cb) {
+		return fmt.Sprintf("BAD trial=%d start failed", id)
+	}
+	_ = p.Announce("svc", 4711, []string{"t=1"})
+	time.Sleep(time.Duration(id%7) * 300 * time.Microsecond)
+	done := make(chan string, 1)
+	go func() {
+		defer func() {
+			if x := recover(); x != nil {
+				done <- fmt.Sprintf("BAD trial=%d Shutdown panicked: %v", id, x)
+			}
+		}()
+		p.Shutdown()
+		done <- ""
+	}()
+	select {
+	case r := <-done:
+		if r != "" {
+			return r
+		}
+	case <-time.After(5 * time.Second):
+		return fmt.Sprintf("BAD trial=%d Shutdown did not return within 5 s (inFlight=%v, results reported so far %d)", id, inFlight, got.Load())
+	}
+	return fmt.Sprintf("ok trial=%d inFlight=%v reported=%d", id, inFlight, got.Load())
+}
+
 func runAvahiScenario(seed int64, maxEv int) *avahiScenario {
 	rnd := rand.New(rand.NewSource(seed))
 	srv := &fakeAvahi{up: true}
 	p := mdns.VerifNewAvahiProvider(srv, []int32{avahi.InterfaceUnspec})
+	var reports atomic.Int32
+	resolveCount := func(map[string]string, string, string, []net.IP, int, bool) { reports.Add(1) }
 	sc := &avahiScenario{}
 	running := false   // provider running (successful start, no shutdown since)
 	loopAlive := false // a reconnect loop exists
@@ -205,15 +305,36 @@ func runAvahiScenario(seed int64, maxEv int) *avahiScenario {
 		if loopAlive {
 			loops = 1
 		}
-		sc.outs = append(sc.outs, fmt.Sprintf("%s wanted=%s loops=%d late=%d", srv.line(wanted, loops), wanted, loops, late))
+		sc.outs = append(sc.outs, fmt.Sprintf("%s wanted=%s loops=%d late=%d rep=%d", srv.line(wanted, loops), wanted, loops, late, reports.Load()))
 	}
 	shut := false
 	ticks := 0
 	for n := 0; n < maxEv; n++ {
-		switch k := rnd.Intn(20); {
+		switch k := rnd.Intn(23); {
+		case k >= 20:
+			// the daemon emits a browse result, if it holds a browser for this provider
+			srv.mu.Lock()
+			browsing, ch := srv.browser != nil, srv.addChan
+			srv.mu.Unlock()
+			if browsing && ch != nil {
+				before := reports.Load()
+				func() {
+					defer func() { _ = recover() }()
+					select {
+					case ch <- fakeService(n):
+					case <-time.After(2 * time.Second):
+					}
+				}()
+				for i := 0; i < 200 && reports.Load() == before; i++ {
+					time.Sleep(5 * time.Millisecond)
+				}
+			}
+			rec("service")
 		case k < 3:
-			if !running {
-				ok := p.Start(true, resolveNop)
+			// (not while a reconnect loop of an earlier life is still asleep: two loops would wake at about the same
+			// time and the order of their attempts is the scheduler's)
+			if !running && !loopAlive {
+				ok := p.Start(true, resolveCount)
 				shut = false
 				if ok {
 					running = true
@@ -337,7 +458,29 @@ func avahistepMain(args []string) int {
 	workers := fs.Int("workers", 60, "parallel scenarios")
 	outIn := fs.String("in", "avahi_in.txt", "events")
 	outImpl := fs.String("impl", "avahi_impl.txt", "implementation observations")
+	outShut := fs.String("shut", "avahi_shutdown.txt", "shutdown-under-load trials")
+	nShut := fs.Int("shutdowns", 60, "shutdown trials with results streaming in / in flight")
 	_ = fs.Parse(args)
+	{
+		lines := make([]string, *nShut)
+		var wg sync.WaitGroup
+		sem := make(chan struct{}, 30)
+		for i := 0; i < *nShut; i++ {
+			wg.Add(1)
+			sem <- struct{}{}
+			go func(i int) {
+				defer wg.Done()
+				defer func() { <-sem }()
+				lines[i] = avahiShutdownTrial(i, i%3 == 0)
+			}(i)
+		}
+		wg.Wait()
+		f, _ := os.Create(*outShut)
+		for _, l := range lines {
+			fmt.Fprintln(f, l)
+		}
+		f.Close()
+	}
 	res := make([]*avahiScenario, *n)
 	var wg sync.WaitGroup
 	sem := make(chan struct{}, *workers)
